@@ -39,6 +39,13 @@ def Acc.bump (a : Acc) (k : String) (n : Nat := 1) : Acc :=
     | (x, c) :: r => if x = k then (x, c + n) :: r else (x, c) :: go r
   { a with counts := go a.counts }
 
+/-- scientific notation for small deviations (`toString` of a Float prints six fixed decimals) -/
+def sci (x : Float) : String :=
+  if x == 0.0 then "0" else if x.isNaN then "NaN" else if x.isInf then "inf" else
+  let e := Float.floor (Float.log10 (Float.abs x))
+  let m := x / Float.exp (e * Float.log 10.0)
+  s!"{m}e{e.toInt64}"
+
 def fail (a : Acc) (prop what : String) : IO Acc := do
   if a.fails < 40 then IO.println s!"PROPFAIL[{prop}] {what}"
   pure { a with fails := a.fails + 1 }
@@ -66,9 +73,41 @@ def getRot (a : Acc) (i : Nat) : Acc × Mat :=
 def keepOf (s : Sys) (k : Nat) : Bool :=
   if s.retained.isEmpty then true else s.retained.getD ((s.kOf.getD k (0, 0)).1) true
 
+/-- levels that have a partner closer than the library's pole-merging tolerance (1e-8, with slack) without being numerically
+equal: Lehmann terms through such a level may be merged onto a pole that is off by up to the tolerance (documented behaviour:
+"like poles merged within 1e-8") -/
+def mergeSensitive (s : Sys) : Array Bool :=
+  (Array.range s.E.size).map fun k => (List.range s.E.size).any fun j =>
+    let d := Float.abs (s.E[k]! - s.E[j]!)
+    d > 1.0e-13 * (1.0 + Float.abs (s.E[k]!)) && d < 2.0e-8
+
+/-- sorted array of the poles `E_m − E_n` of all pairs for which `contributes n m` -/
+def sortedPoles (s : Sys) (contributes : Nat → Nat → Bool) : Array Float :=
+  let ps := (List.range s.dim).foldl (fun (acc : Array Float) n => (List.range s.dim).foldl (fun acc m =>
+    if contributes n m then acc.push (s.E[m]! - s.E[n]!) else acc) acc) #[]
+  ps.qsort (· < ·)
+
+/-- is there, in the sorted array, a pole closer to `P` than the merging tolerance (with slack) that is not `P` itself
+(numerically)?  Such like poles are merged by `TermList` and the merged term sits at a pole that is off by the difference. -/
+def hasNearPole (sorted : Array Float) (P : Float) : Bool := Id.run do
+  -- lower bound by binary search
+  let mut lo := 0
+  let mut hi := sorted.size
+  while lo < hi do
+    let mid := (lo + hi) / 2
+    if sorted[mid]! < P - 2.0e-8 then lo := mid + 1 else hi := mid
+  let mut k := lo
+  let mut found := false
+  while k < sorted.size && sorted[k]! ≤ P + 2.0e-8 do
+    let d := Float.abs (sorted[k]! - P)
+    if d > 1.0e-13 * (1.0 + Float.abs P) then found := true
+    k := k + 1
+  return found
+
 /-- full-space Lehmann sum for G_ij(z) and its error budget (terms with |R| ≤ 2·tol may legitimately be dropped);
 `keep`: which eigenstates lie in retained blocks (a term is summed when one of its two states does) -/
 def specG (s : Sys) (w : Array Float) (ci cj : Mat) (z : C) (keep : Nat → Bool := fun _ => true) : C × Float × Float :=
+  let poles := sortedPoles s fun n m => let x := mget ci n m; !(x.re == 0.0 && x.im == 0.0) && (mget cj n m).abs > 0.0
   (List.range s.dim).foldl (fun acc n => (List.range s.dim).foldl (fun (acc : C × Float × Float) m =>
     let x := mget ci n m
     if (x.re == 0.0 && x.im == 0.0) || !(keep n || keep m) then acc else
@@ -76,7 +115,17 @@ def specG (s : Sys) (w : Array Float) (ci cj : Mat) (z : C) (keep : Nat → Bool
     let den := z - ofR (s.E[m]! - s.E[n]!)
     let t := r / den
     let (g, budget, tot) := acc
-    (g + t, budget + (if r.abs ≤ 2.0e-8 then t.abs else 0.0), tot + t.abs)) acc) (czero, 0.0, 0.0)
+    -- budget: terms the library is documented to drop (|residue| below 1e-8) + pole shifts of merged like poles
+    (g + t, budget + (if r.abs ≤ 2.0e-8 then t.abs else 0.0) + (if hasNearPole poles (s.E[m]! - s.E[n]!) then t.abs * 2.0e-8 / den.abs else 0.0),
+     tot + t.abs)) acc) (czero, 0.0, 0.0)
+
+/-- the part of the residue sum rule the library may legitimately lose: Σ |residue| over the terms below its residue tolerance -/
+def residueBudget (s : Sys) (w : Array Float) (ci cj : Mat) : Float :=
+  (List.range s.dim).foldl (fun acc n => (List.range s.dim).foldl (fun (acc : Float) m =>
+    let x := mget ci n m
+    if x.re == 0.0 && x.im == 0.0 then acc else
+    let r := (x * (mget cj n m).conj * ofR (w[n]! + w[m]!)).abs
+    if r ≤ 2.0e-8 then acc + r else acc) acc) 0.0
 
 /-- `w_n · e^{τ(E_n − E_m)}` evaluated without overflow for `0 ≤ τ ≤ β`:
 `exp(−(β−τ)(E_n−E₀) − τ(E_m−E₀)) / Z` -/
@@ -167,6 +216,7 @@ def undecided (v thr rel : Float) : Bool := v > thr * (1.0 - rel) && v < thr * (
 def specSusc (s : Sys) (w : Array Float) (A B : Mat) (n : Int) (keep : Nat → Bool := fun _ => true) : SuscSpec :=
   let omega := 2.0 * Float.ofInt n * 3.141592653589793 / s.beta
   let z : C := ⟨0.0, omega⟩
+  let poles := sortedPoles s fun a b => (mget A a b * mget B b a).abs > 0.0 && Float.abs (s.E[b]! - s.E[a]!) ≥ 1.0e-8
   (List.range s.dim).foldl (fun acc a => (List.range s.dim).foldl (fun (acc : SuscSpec) b =>
     let x := mget A a b * mget B b a
     if x.abs == 0.0 || !(keep a || keep b) then acc else
@@ -179,6 +229,9 @@ def specSusc (s : Sys) (w : Array Float) (A B : Mat) (n : Int) (keep : Nat → B
     let zeroPole : C := if n == 0 then x * ofR (s.beta * w[a]!) else czero
     let r := (x * ofR dw).abs
     let acc := { acc with x := acc.x + exact, tot := acc.tot + exact.abs }
+    -- a kept term whose pole has a near-but-different neighbour may be merged onto that neighbour (shift < 1e-8)
+    let acc := if Float.abs P ≥ 1.0e-8 && hasNearPole poles P then
+        { acc with ideal := acc.ideal + exact.abs * 2.0e-8 / (if n == 0 then Float.abs P else (z - ofR P).abs) } else acc
     if undecided (Float.abs P) 1.0e-8 1.0e-4 then { acc with unsure := acc.unsure + (exact - zeroPole).abs + exact.abs }
     else if Float.abs P < 1.0e-8 then { acc with ideal := acc.ideal + (exact - zeroPole).abs }
     else if undecided r 1.0e-8 1.0e-3 then { acc with unsure := acc.unsure + exact.abs }
@@ -187,6 +240,7 @@ def specSusc (s : Sys) (w : Array Float) (A B : Mat) (n : Int) (keep : Nat → B
 
 /-- the same for χ_AB(τ) = ⟨A(τ) B⟩ -/
 def specSuscTau (s : Sys) (w : Array Float) (A B : Mat) (tau : Float) : SuscSpec :=
+  let poles := sortedPoles s fun a b => (mget A a b * mget B b a).abs > 0.0 && Float.abs (s.E[b]! - s.E[a]!) ≥ 1.0e-8
   (List.range s.dim).foldl (fun acc a => (List.range s.dim).foldl (fun (acc : SuscSpec) b =>
     let x := mget A a b * mget B b a
     if x.abs == 0.0 then acc else
@@ -195,6 +249,8 @@ def specSuscTau (s : Sys) (w : Array Float) (A B : Mat) (tau : Float) : SuscSpec
     let zeroPole := x * ofR w[a]!
     let r := (x * ofR (weightDiff s.beta w[a]! w[b]! P)).abs
     let acc := { acc with x := acc.x + exact, tot := acc.tot + exact.abs }
+    let acc := if Float.abs P ≥ 1.0e-8 && hasNearPole poles P then
+        { acc with ideal := acc.ideal + exact.abs * 2.0e-8 * (s.beta + 1.0 / Float.abs P) } else acc
     if undecided (Float.abs P) 1.0e-8 1.0e-4 then { acc with unsure := acc.unsure + (exact - zeroPole).abs + exact.abs }
     else if Float.abs P < 1.0e-8 then { acc with ideal := acc.ideal + (exact - zeroPole).abs }
     else if undecided r 1.0e-8 1.0e-3 then { acc with unsure := acc.unsure + exact.abs }
